@@ -2,15 +2,54 @@
 //! (a LATEST-VALUE channel like tokio::sync::watch: `send` overwrites; a ghost log keeps every value
 //! sent), the RPC network, the node selector handle and the statistics counters.
 use core::cell::{Cell, UnsafeCell};
-use std::borrow::Cow;
-use std::net::SocketAddr;
+
+/// Data-centre names are OPAQUE identifiers in this unit: `String` -> DcName (the 64-bit order-preserving identity vcoll uses for
+/// strings of <= 7 bytes) and `Cow<'static, str>` -> DcCow. Measured reason (same as the restart unit): heap `String`s (allocation,
+/// memcpy, memcmp, clone) make CBMC's propositional reduction run out of memory; watch_membership_changes only clones, wraps
+/// (Cow::Owned) and uses names as map keys.
+#[derive(Clone, Copy, PartialEq, Eq, PartialOrd, Ord, Debug)]
+pub struct DcName(pub u64);
+#[derive(Debug)]
+pub enum DcCow<'a, B: ?Sized + 'a> {
+    Borrowed(&'a B),
+    Owned(DcName),
+}
+pub use DcCow as Cow;
+impl<'a, B: ?Sized> Clone for DcCow<'a, B> {
+    fn clone(&self) -> Self {
+        match self {
+            DcCow::Borrowed(b) => DcCow::Borrowed(*b),
+            DcCow::Owned(n) => DcCow::Owned(*n),
+        }
+    }
+}
+impl<'a> vcoll::VKey for DcCow<'a, str> {
+    fn vkey(&self) -> u64 {
+        match self {
+            DcCow::Borrowed(b) => vcoll::VKey::vkey(*b),
+            DcCow::Owned(n) => n.0,
+        }
+    }
+}
+impl vcoll::VKey for DcName {
+    fn vkey(&self) -> u64 {
+        self.0
+    }
+}
+impl<'a> core::borrow::Borrow<DcName> for DcCow<'a, str> {
+    fn borrow(&self) -> &DcName {
+        match self {
+            DcCow::Owned(n) => n,
+            DcCow::Borrowed(_) => panic!("vcoll: borrowed data-centre names are not used in this unit"),
+        }
+    }
+}
+/// socket addresses are OPAQUE identifiers in this unit (copied, compared, used as set keys, handed to disconnect)
+pub type SocketAddr = vcoll::vkey::OpaqueId;
 pub use std::sync::atomic::Ordering;
 
-// real std collections: every harness of this unit fixes presence and addresses concretely, so CBMC
-// executes the std B-tree / Vec code by constant propagation (vcoll stand-ins made the composite
-// function exceed 24 GB)
-use std::collections::BTreeMap;
-use std::vec::Vec as VVec;
+use vcoll::vvec::VVec;
+use vcoll::BTreeMap;
 
 pub type Nodes = VVec<SocketAddr>;
 
